@@ -16,6 +16,7 @@
               insertion order / reversed; PANIC, CYCLE, FUEL or ILLTYPED (no constraints) otherwise;
               prefixed with "IGNORED-CLASH " when the resolver silently ignored a clash.
    Request:   C02 (resolve (<eq> ...) [rev])   see handle_resolve below.
+   Request:   C02 (resolverels ((<i> <ty>) ...) [rev])   see handle_resolverels below (bounded loop).
 
    <fn>    ::= (fn "name" (<param> ...) <exp>)
    <param> ::= ("x" _) | ("x" <ty>)                      annotation: a ground type
@@ -149,6 +150,30 @@ let handle_resolve eqs rev =
           | ROk t -> " ((tv " ^ string_of_int v ^ ") " ^ sexp_of_ty ta t ^ ")"
           | _ -> "") rs)
 
+(* C02 (resolverels ((<i> <ty>) ...) [rev])   explicit relations {SrcV=_T<i>; Dest=<ty>} fed to the BOUNDED loop
+   (Core/ResolverBound.v = updateResolverN of fc/infer.fo), then every variable is resolved
+   -> SOLVED[ IGNORED-CLASH] ((tv i) <ty>) ... | NOCONV (the "does not converge" diagnostic) | CYCLE (the
+      "Recursive type" diagnostic of resolveOneTypeVarP) | PANIC (compositeTp's panics) | FUEL *)
+let handle_resolverels rels rev =
+  let tnames = List.init 64 (fun i -> "R" ^ string_of_int i) in
+  let rs = List.map (function L [i; t] -> (nat_of_int (int_of i), ty_of tnames t) | _ -> raise (Parse_error "relation")) rels in
+  let enum = if rev then enum_rev else enum_id in
+  match bsolve_rels later_names enum bound_fuel rs with
+  | BSPanic -> "PANIC"
+  | BSFuel -> "FUEL"
+  | BSNoConv -> "NOCONV"
+  | BSSolved (st, ign) ->
+    let vars = List.fold_left (fun acc (x, d) -> ty_vars (ty_vars acc (TVar x)) d) [] rs in
+    let ta = Array.of_list tnames in
+    let res = List.map (fun v -> (v, resolve_type res_fuel st (TVar (nat_of_int v)))) vars in
+    if List.exists (fun (_, r) -> r = RCycle) res then "CYCLE"
+    else if List.exists (fun (_, r) -> r = RFuel) res then "FUEL"
+    else
+      "SOLVED" ^ (if ign then " IGNORED-CLASH" else "") ^
+      String.concat "" (List.map (fun (v, r) -> match r with
+          | ROk t -> " ((tv " ^ string_of_int v ^ ") " ^ sexp_of_ty ta t ^ ")"
+          | _ -> "") res)
+
 let handle want_type fn table =
   let (d, tnames, members, gnames) = parse_table table in
   let vars : (string, int) Hashtbl.t = Hashtbl.create 16 in
@@ -225,6 +250,8 @@ let () = Registry.register "C02" (function
     | L [A "infertype"; fn; table] -> handle 1 fn table
     | L [A "inferres"; fn; table] -> handle 2 fn table
     | L [A "inferres-rev"; fn; table] -> handle 3 fn table
+    | L [A "resolverels"; L rels] -> handle_resolverels rels false
+    | L [A "resolverels"; L rels; A "rev"] -> handle_resolverels rels true
     | L [A "resolve"; L eqs] -> handle_resolve eqs false
     | L [A "resolve"; L eqs; A "rev"] -> handle_resolve eqs true
     | _ -> "ERR bad C02 request")
